@@ -139,7 +139,22 @@ def main():
             die("%s: integer fast-path test not found in the expected form" % key)
         if not re.search(r"while\s*\(\s*atof\(theBuffer\)\s*!=\s*theValue\s*&&\s*\*thePrintfString\s*!=\s*0\s*\)", body):
             die("%s: precision loop condition not found in the expected form" % key)
-        info[key] = {"buffer": size, "bounded": bounded, "line": line}
+        flat = re.sub(r"\s+", " ", body)
+        # integer fast path: 0 = the cast is evaluated for every finite non-zero value (undefined for |x| >= 2^63),
+        #                    1 = guarded by  theValue >= -2^63 && theValue < 2^63
+        guarded = ("else if (theValue >= -9223372036854775808.0 && theValue < 9223372036854775808.0 && "
+                   "static_cast<XMLInt64>(theValue) == theValue)") in flat
+        unguarded = "else if (static_cast<XMLInt64>(theValue) == theValue)" in flat
+        if guarded == unguarded:
+            die("%s: integer fast-path test is in neither of the two transcribed forms" % key)
+        # after the loop: 0 = nothing, 1 = when the last attempt does not read back, formatSmallNumber() replaces the buffer
+        fb = ("while(atof(theBuffer) != theValue && *thePrintfString != 0); if (atof(theBuffer) != theValue) { "
+              "const int theSmallNumberLength = formatSmallNumber(theValue, theBuffer); "
+              "if (theSmallNumberLength != 0) { theCharsWritten = theSmallNumberLength; } } while(theBuffer[--theCharsWritten] == '0')") in flat
+        nofb = "while(atof(theBuffer) != theValue && *thePrintfString != 0); while(theBuffer[--theCharsWritten] == '0')" in flat
+        if fb == nofb:
+            die("%s: the code between the precision loop and the zero stripping is in neither of the two transcribed forms" % key)
+        info[key] = {"buffer": size, "bounded": bounded, "line": line, "castGuarded": int(guarded), "tinyFallback": int(fb)}
     if key == "toCharacters":
         body, _ = function_body(src, r"DOMStringHelper::NumberToCharacters\s*\(\s*double\s+theValue\s*,.*?\)\s*\{", key)
         mm = re.search(r"XalanDOMChar\s+theResult\s*\[([^\]]+)\]", body)
@@ -147,6 +162,23 @@ def main():
             die("toCharacters: `XalanDOMChar theResult[...]` not found")
         info["toCharacters"]["result"] = const_eval(mm.group(1), env)
 
+    for f in ("castGuarded", "tinyFallback"):
+        if info["toDOMString"][f] != info["toCharacters"][f]:
+            die("NumberToDOMString and NumberToCharacters differ in " + f)
+        info[f] = info["toDOMString"][f]
+    if info["tinyFallback"]:
+        body, _ = function_body(src, r"static\s+int\s+formatSmallNumber\s*\(\s*double\s+theValue\s*,\s*char\*\s*theBuffer\s*\)\s*\{", "formatSmallNumber")
+        flat = re.sub(r"\s+", " ", body)
+        need = ['char theScientific[32];', 'sprintf(theScientific, "%.17e", theValue);',
+                "const char* const theExponentMark = strchr(theScientific, 'e');",
+                "if (theExponentMark == 0 || theExponentMark[1] != '-') { return 0; }",
+                "if (*theCurrent == '-') { *theOutput++ = *theCurrent++; }", "*theOutput++ = '0'; *theOutput++ = '.';",
+                "for (int theZeros = atoi(theExponentMark + 2) - 1; theZeros > 0; --theZeros) { *theOutput++ = '0'; }",
+                "for (; theCurrent != theExponentMark; ++theCurrent) { if (isdigit(*theCurrent)) { *theOutput++ = *theCurrent; } }",
+                "*theOutput = 0; return int(theOutput - theBuffer);"]
+        for n in need:
+            if n not in flat:
+                die("formatSmallNumber is not in the transcribed form (missing: %s)" % n)
     body, _ = function_body(src, r"ScalarToDecimalString\s*\(\s*ScalarType\s+theValue\s*,\s*XalanDOMString&\s*theResult\s*\)\s*\{", "ScalarToDecimalString")
     mm = re.search(r"XalanDOMChar\s+theBuffer\s*\[([^\]]+)\]", body)
     if not mm:
@@ -232,6 +264,10 @@ def convertBuffer : Nat := %d
 def fastPathKeepsSign : Nat := %d
 /-- `DoubleSupport::round`: 0 = `long(x + 0.5)` form, 1 = `modf` + `ceil`/`floor` form -/
 def roundVariant : Nat := %d
+/-- integer fast-path test of the double conversions: 1 = guarded by `-2^63 <= x < 2^63`, 0 = cast evaluated unconditionally -/
+def castGuarded : Nat := %d
+/-- 1 = when the last "%%.Nf" attempt does not read back, `formatSmallNumber` ("%%.17e" expanded) replaces the buffer -/
+def tinyFallback : Nat := %d
 
 end XalanModel.Generated.C18
 """ % (os.path.relpath(DSH, common.REPO), os.path.relpath(DS, common.REPO),
@@ -240,7 +276,7 @@ end XalanModel.Generated.C18
        info["toCharacters"]["buffer"], info["toCharacters"]["bounded"], info["toCharacters"]["result"],
        info["scalarBuffer"],
        lst(strs["theNaNString"]), lst(strs["thePositiveInfinityString"]), lst(strs["theNegativeInfinityString"]),
-       lst(strs["theZeroString"]), info["longHackThreshold"], info["convertBuffer"], info["fastPathKeepsSign"], info["roundVariant"])
+       lst(strs["theZeroString"]), info["longHackThreshold"], info["convertBuffer"], info["fastPathKeepsSign"], info["roundVariant"], info["castGuarded"], info["tinyFallback"])
     os.makedirs(common.GEN, exist_ok=True)
     p = os.path.join(common.GEN, "C18_NumberConsts.lean")
     old = open(p).read() if os.path.exists(p) else None
@@ -249,9 +285,9 @@ end XalanModel.Generated.C18
             f.write(out)
     with open(os.path.join(common.GEN, "C18_NumberConsts.json"), "w") as f:
         json.dump(info, f, indent=1)
-    print("c18_number_consts: MAX_PRINTF_DIGITS=%d precisions=%d..%d (%d) buffer=%d bounded=%d longHack=%d keepSign=%d roundVariant=%d" % (
+    print("c18_number_consts: MAX_PRINTF_DIGITS=%d precisions=%d..%d (%d) buffer=%d bounded=%d longHack=%d keepSign=%d roundVariant=%d castGuarded=%d tinyFallback=%d" % (
         info["MAX_PRINTF_DIGITS"], precs[0], precs[-1], len(precs), info["toDOMString"]["buffer"],
-        info["toDOMString"]["bounded"], info["longHackThreshold"], info["fastPathKeepsSign"], info["roundVariant"]))
+        info["toDOMString"]["bounded"], info["longHackThreshold"], info["fastPathKeepsSign"], info["roundVariant"], info["castGuarded"], info["tinyFallback"]))
 
 
 if __name__ == "__main__":
